@@ -435,6 +435,11 @@ def task_pipeline(pr, repo):
 
 
 def run(pr, repo):
+    pr.level = 'other'
+    pr.explanation = ('deductive core (VC on average_of_conformations, top-up, pipeline, reader steps) plus bounded monitor; level "other" '
+                      'because one clause does NOT hold on this tree under the option -d (recorded known finding D17: after the display of '
+                      'alternative states the averaged table of a single-conformation input names the group itself where the '
+                      'conformation\'s table names the partner) - reported as KNOWN-FINDING by the monitor on every run')
     pr.parallel([(task_average, (3,)), (task_average, (2,)), (task_average_twins, ()), (task_average_partner_twins, ()), (task_topup, ()), (task_topup_conformations, ()), (task_sorter, ()),
                  (C14.task_make_copy, ()), (reader.task_nterm, ()), (task_proton_registration, ()), (task_pipeline, ())])   # every alternate location of a chain start is tagged N+
     pr.assumptions += ['AV: two group identities over 2 and 3 conformations, one determinant per type and conformation '
@@ -507,9 +512,40 @@ def bounded(pr):
             if k not in keyed:
                 bad.append('average reports %r which exists in no conformation' % (k,))
         if len(mol.conformation_names) == 1:
-            d = native.diff_records({'x': rec[mol.conformation_names[0]]}, {'x': rec['AVR']}, tol=1e-12, keys=('pka', 'evol', 'eloc', 'buried'))
+            bad += native.diff_records({'x': rec[mol.conformation_names[0]]}, {'x': rec['AVR']}, tol=1e-12, keys=('pka', 'evol', 'eloc', 'buried'))
         if bad and len(viol) < 3:
             viol.append({'what': '%s: %s' % (name, bad[:3]), 'replay': None})
+    # 'a single-conformation input reports exactly its only conformation': the rows of the averaged table (partner label, value) are
+    # those of the conformation's own table - with and without the display of alternative states (-d; known finding D17)
+    for name in (['1HPX', '3SGB-subset'] if pr.tier == 'quick' else ['1HPX', '3SGB-subset', '3SGB', '1FTJ-Chain-A']):
+        for opts in ([], ['-d']):
+            ev += 1
+            classes.add(('single conformation', tuple(opts)))
+            try:
+                mol = native.run_text(native.pdb_lines(name), opts)
+                gs0 = mol.conformations[mol.conformation_names[0]].groups
+                keys0 = [(g.label, g.type) for g in gs0]
+                only = {(g.label, g.type): g for g in gs0}
+                diff = []
+                for g in mol.conformations['AVR'].groups:
+                    if keys0.count((g.label, g.type)) > 1:
+                        continue            # equally labelled groups (insertion-code twins: known finding D9) cannot be paired up here
+                    h = only.get((g.label, g.type))
+                    if h is None:
+                        diff.append('%s only in the average' % g.label)
+                        continue
+                    for t in ('sidechain', 'backbone', 'coulomb'):
+                        ra = sorted((d.label, round(d.value, 9)) for d in h.determinants[t])
+                        rb = sorted((d.label, round(d.value, 9)) for d in g.determinants[t])
+                        if ra != rb:
+                            diff.append('%s %s rows: conformation %r, average %r' % (g.label, t, ra[:3], rb[:3]))
+            except Exception as e:    # noqa
+                diff = ['%s: %s' % (type(e).__name__, e)]
+            if diff:
+                what = '%s %s (single conformation): the averaged table differs from the conformation\'s table%s: %s' % (
+                    name, opts, ' under display of alternative states (-d)' if opts else '', diff[:2])
+                if opts or len(viol) < 3:
+                    viol.append({'what': what, 'replay': None})
     pr.bounded.append({'name': 'C08-monitor: reported average vs independent mean over the containing conformations', 'evaluations': ev,
                        'distinct_nontrivial': len(classes), 'bound': '%d multi-conformation inputs' % ev,
                        'rule': 'repo conf-* files, alt-loc point mutants with an ionizable residue in one conformation only, repeated models',
